@@ -117,13 +117,13 @@ structure Loc where
 /-- how an assignment reaches its field -/
 inductive Via
   | fresh                 -- `msg.a.b[2].f[key] = v`: every attribute access made now
-  | view (i : Nat)        -- through the i-th object bound earlier by a `bind` statement
+  | view (i : Nat)        -- through the object a `bind` statement put into variable `x_i` earlier
   deriving DecidableEq, Repr, Inhabited
 
 inductive Stmt
-  /-- `x_i = msg.path…` : keeps a bound array object / sub-structure for later use -/
-  | bind (l : Loc)
-  /-- an assignment; for `.view i` the location is the one bound by the i-th `bind` executed so far -/
+  /-- `x_i = msg.path…` : keeps a bound array object / sub-structure in variable number `i` for later use -/
+  | bind (i : Nat) (l : Loc)
+  /-- an assignment to the field at `l`; for `.view i` reached through the object in variable `x_i` -/
   | assign (via : Via) (l : Loc) (key : Key) (v : PyVal)
   /-- `with disable_message_validation(ignore): body` -/
   | block (ignore : Bool) (body : List Stmt)
@@ -150,7 +150,8 @@ structure AssignRec where
 structure PState where
   msg : Bytes
   flag : Bool := true
-  views : List Loc := []
+  /-- the variables `x_i` bound so far -/
+  views : List (Nat × Loc) := []
   /-- executed assignments, latest first -/
   log : List AssignRec := []
   deriving Repr
@@ -165,13 +166,14 @@ def PState.record (s : PState) (depth : Nat) (l : Loc) (key : Key) (v : PyVal) :
 mutual
 /-- run one statement at lexical disable depth `d`; the Bool says "an exception is propagating" -/
 def execStmt (d : Nat) (s : PState) : Stmt → PState × Bool
-  | .bind l => ({ s with views := s.views ++ [l] }, false)
+  | .bind i l => ({ s with views := (i, l) :: s.views }, false)
   | .assign .fresh l key v => s.record d l key v
-  | .assign (.view i) _ key v =>
-    -- the harness only generates `i` that are bound and `l` equal to the bound location; a view that does not
-    -- exist is a NameError in Python: an exception, nothing stored
-    (match s.views[i]? with
-     | some l' => s.record d l' key v
+  | .assign (.view i) l key v =>
+    -- through the object in variable `x_i` (an array object, a sub-structure, a struct-array element): `l` is
+    -- the field inside it that is assigned.  The bound object carries no validation state, so all that matters is
+    -- that it exists (a name that was never bound is a NameError: an exception, nothing stored)
+    (match s.views.lookup i with
+     | some _ => s.record d l key v
      | none => (s, true))
   | .block true body => execList d s body          -- `ignore=True`: a dummy context
   | .block false body =>
